@@ -117,7 +117,7 @@ def prepare_scratch(repo, groups, scratch):
         dst = os.path.join(hostdir, modname + ".rs")
         shutil.copy2(g["path"], dst)
         with open(host, "a") as fh:
-            fh.write(f"\n#[cfg(any(kani, all(test, verif_replay)))]\n#[allow(dead_code, unused, trivial_casts, trivial_numeric_casts, unused_qualifications, clippy::all)]\nmod {modname};\n")
+            fh.write(f"\n#[cfg(any(kani, all(test, verif_replay)))]\n#[allow(dead_code, unused, trivial_casts, trivial_numeric_casts, unused_qualifications, clippy::all)]\npub(crate) mod {modname};\n")
         # contract attributes (inserted bottom-up per file so offsets stay valid)
         byfile = {}
         for c in g["contracts"]:
